@@ -27,6 +27,7 @@ typedef void (*sighandler_t)(int);
 static int in_child_process(void);
 static int wait_for_child_process(void);
 static void stop(void);
+static void stop_on_timeout(int signal_number);
 static void ignore_ctrl_c(void);
 static void allow_ctrl_c(void);
 
@@ -80,7 +81,7 @@ static int wait_for_child_process(void) {
 }
 
 void die_in(unsigned int seconds) {
-    sighandler_t signal_result = signal(SIGALRM, (sighandler_t)&stop);
+    sighandler_t signal_result = signal(SIGALRM, &stop_on_timeout);
     if (SIG_ERR == signal_result) {
         fprintf(stderr, "could not set alarm signal handler\n");
         return;
@@ -95,16 +96,28 @@ void run_specified_test_if_child(TestSuite *suite, TestReporter *reporter){
     (void)reporter;
 }
 
-static void stop(void) {
-    CGREEN_VERIF_POINT("at_stop");
+static void leave_with(int status) {
 #ifdef CGREEN_INTERNAL_WITH_GCOV
     if (1)
 #else
     if (getenv("CGREEN_CHILD_EXIT_WITH__EXIT") == NULL)
 #endif
-        exit(EXIT_SUCCESS);
+        exit(status);
     else
-        _exit(EXIT_SUCCESS);
+        _exit(status);
+}
+
+static void stop(void) {
+    CGREEN_VERIF_POINT("at_stop");
+    leave_with(EXIT_SUCCESS);
+}
+
+/* The test ran out of time. In a test process the missing completion
+   notice makes it an exception; when the test runs in the runner's own
+   process this status is the verdict of the run. */
+static void stop_on_timeout(int signal_number) {
+    (void)signal_number;
+    leave_with(EXIT_FAILURE);
 }
 
 static void ignore_ctrl_c(void) {
